@@ -103,6 +103,7 @@ func SeqProfileFor(name string, seed int64) SeqProfile {
 		// (block A, block B, block A again), each of which must reach the triggers exactly once
 		p.MaxBody = 7
 		p.Prologue = []string{"", "block1", "block1", "three"}[r.Intn(4)]
+		p.OneShot = r.Intn(2) == 0 // triggers that drop themselves from inside a commit, ahead of the recorded ones
 	case "c07": // snapshot -> restore -> continue cycles over all kinds, indexes, sorted index, several blocks
 		p.PDropCol = 0.6
 		p.Cols = []ColDesc{{"a", "int", "add", numRepr()}, {"s", "str", []string{"", "concat"}[r.Intn(2)], "string"}, {"b", "bool", "", "bool"},
